@@ -120,9 +120,9 @@ CHECKS = {
     },
     "C19": {
         "groups": [
-            {"pkg": "Havoc/pkg/profile/yaotl/ext/dynblock", "with": ["Havoc/pkg/profile/yaotl/hclsyntax"], "entries": ["H_c19_equiv"], "flags": ["-tags", "nohint", "-init", "Havoc/pkg/profile/yaotl,golang.org/x/text/unicode/norm,github.com/zclconf/go-cty/...,math/big,github.com/agext/levenshtein"]},
+            {"pkg": "Havoc/pkg/profile/yaotl/ext/dynblock", "with": ["Havoc/pkg/profile/yaotl/hclsyntax"], "entries": ["H_c19_equiv", "H_c19_nested_dynamic"], "flags": ["-tags", "nohint", "-init", "Havoc/pkg/profile/yaotl,golang.org/x/text/unicode/norm,github.com/zclconf/go-cty/...,math/big,github.com/agext/levenshtein"]},
         ],
-        "bounds": "one configuration schema (required string attribute a, optional number n, repeated block b with string attribute c) with three arbitrary printable characters as the string values, with and without the required attribute, written five ways: plain native syntax; reordered with the three comment styles, odd spacing and a single-line block; JSON syntax; split over two files merged with MergeBodies; repeated blocks replaced by a dynamic block over the same values (dynblock.Expand). All five decode through hcldec.Decode to the same cty value (and that value is the intended one), and all five are valid exactly when the configuration is.",
+        "bounds": "one configuration schema (required string attribute a, optional number n = 2^64+1, repeated block b with string attribute c) with three arbitrary printable characters as the string values, with and without the required attribute, written five ways: plain native syntax; reordered with the three comment styles, odd spacing and a single-line block; JSON syntax; split over two files merged with MergeBodies; repeated blocks replaced by a dynamic block over the same values (dynblock.Expand). All five decode through hcldec.Decode to the same cty value (and that value is the intended one), and all five are valid exactly when the configuration is. Nested repeated blocks against a dynamic block inside a dynamic block, with the same and with different iterator names, arbitrary strings.",
         "outside": "the gohcl decoder (reflection); other schemas (labelled blocks, maps, sets, nested dynamic blocks, collection-typed attributes); compositions of rewrites; strings needing escapes (the two syntaxes escape differently; encoding/json.Unmarshal is a model for escape-free string tokens); hclwrite formatting as a rewrite (covered for validity under C20)",
         "min_completed": 1,
     },
